@@ -146,6 +146,16 @@ func randomTrace(rng *rand.Rand, rep *kit.Report, rec *kit.Recorder, steps int, 
 			cmd := mkCommand(cmdSeq, 1+rng.Intn(2), installed[n].ChannelEpoch, 0)
 			history = append(history, issued{cmd: cmd, node: n, auth: installed[n], seq: cmdSeq})
 			doCommit(n, installed[n], cmd, false)
+		case r < 64 && len(history) > 0: // a proposal that still expects an OLDER authority of the same node
+			h := history[rng.Intn(len(history))]
+			cur, ok := installed[h.node]
+			if !ok || h.node == down || cur == h.auth {
+				continue
+			}
+			cmdSeq++
+			cmd := mkCommand(cmdSeq, 1, h.auth.ChannelEpoch, 0)
+			rep.Cover("CommitStaleExpectation")
+			doCommit(h.node, h.auth, cmd, false)
 		case r < 72 && len(history) > 0: // retry: identical content, or the same command id with changed content
 			h := history[rng.Intn(len(history))]
 			if h.node == down {
@@ -302,6 +312,7 @@ func runScenarios(env kit.Env, rep *kit.Report) {
 		{"S_ack_then_failover_with_full_probe", scenarioFailoverKeepsAcked},
 		{"S_local_suffix_above_committed_is_not_cut", scenarioFailClosedSuffix},
 		{"V_minority_tail_is_not_selected", scenarioMinorityTail},
+		{"C04_deposed_and_fenced_authority", scenarioAuthorityFencing},
 	} {
 		s, err := newScenario(rep)
 		if err != nil {
@@ -556,6 +567,75 @@ func scenarioMinorityTail(s *scenarioCtx) error {
 	if ierr == nil && inst.LEO != 0 {
 		s.rep.Violate("C01", "scenario", fmt.Sprintf("Install(node 2) answered by two empty replicas returned %+v", inst),
 			map[string]any{"scenario": "minority-tail", "schedule": s.log})
+	}
+	return nil
+}
+
+
+// C04 on one owner: an older authority can never be installed again, an equal authority id with a
+// different configuration is refused, proposals expecting the deposed authority are rejected, and a
+// write-fenced authority admits nothing.
+func scenarioAuthorityFencing(s *scenarioCtx) error {
+	if _, err := s.mustInstall(1, 1); err != nil {
+		return err
+	}
+	if _, err := s.c.commit(1, aid(1), mkCommand(1, 1, 1, 0), false, callTimeout); err != nil {
+		return fmt.Errorf("setup commit: %w", err)
+	}
+	inst2, err := s.mustInstall(1, 3)
+	if err != nil {
+		return fmt.Errorf("setup install term 3: %w", err)
+	}
+	// older authority again (term 2 < 3, never seen before) and the original one
+	for _, term := range []uint64{2, 1} {
+		inst, err := s.mustInstall(1, term)
+		if err == nil {
+			s.rep.Violate("C04", "scenario", fmt.Sprintf("Install of older authority term %d succeeded (%+v) after term 3 was installed", term, inst),
+				map[string]any{"scenario": "authority-fencing", "schedule": s.log})
+			return nil
+		}
+	}
+	// a proposal expecting the deposed authority
+	rc, err := s.c.commit(1, aid(1), mkCommand(2, 1, 1, 0), false, callTimeout)
+	s.note("Commit(node 1, expected term 1) after term 3 -> %+v, %v", rc, err)
+	if err == nil {
+		s.rep.Violate("C04", "scenario", fmt.Sprintf("append proposed under deposed authority term 1 was acknowledged: %+v", rc),
+			map[string]any{"scenario": "authority-fencing", "schedule": s.log})
+		return nil
+	}
+	// the owner must still be writable under term 3 (the refused installs changed nothing)
+	rc3, err := s.c.commit(1, aid(3), mkCommand(3, 1, 1, 0), false, callTimeout)
+	s.note("Commit(node 1, expected term 3) -> %+v, %v", rc3, err)
+	if err != nil {
+		s.rep.Violate("C04", "scenario", fmt.Sprintf("refused stale Install changed the owner: append under the current authority failed: %v", err),
+			map[string]any{"scenario": "authority-fencing", "schedule": s.log})
+		return nil
+	}
+	if rc3.First != inst2.LEO+1 || rc3.Authority != aid(3) {
+		s.rep.Violate("C03", "scenario", fmt.Sprintf("receipt %+v: expected first = %d under term 3", rc3, inst2.LEO+1),
+			map[string]any{"scenario": "authority-fencing", "schedule": s.log})
+	}
+	// same authority id, other write quorum -> refused, still writable
+	other := mkAuthority(aid(3), 1, false)
+	other.WriteQuorum = 3
+	if inst, err := s.c.install(1, other, callTimeout); err == nil {
+		s.rep.Violate("C04", "scenario", fmt.Sprintf("same authority id with a different configuration was installed: %+v", inst),
+			map[string]any{"scenario": "authority-fencing", "schedule": s.log})
+		return nil
+	}
+	// write fence: newer authority with the fence set admits nothing
+	_, ferr := s.c.install(1, mkAuthority(aid(4), 1, true), callTimeout)
+	s.note("Install(node 1, term 4, write fence set) -> %v", ferr)
+	rc4, err := s.c.commit(1, aid(4), mkCommand(4, 1, 1, 0), false, callTimeout)
+	s.note("Commit(node 1, expected term 4) under write fence -> %+v, %v", rc4, err)
+	if ferr == nil || err == nil {
+		s.rep.Violate("C04", "scenario", fmt.Sprintf("write-fenced authority admitted work: install err=%v, receipt %+v err=%v", ferr, rc4, err),
+			map[string]any{"scenario": "authority-fencing", "schedule": s.log})
+	}
+	rc5, err := s.c.commit(1, aid(3), mkCommand(5, 1, 1, 0), false, callTimeout)
+	if err == nil {
+		s.rep.Violate("C04", "scenario", fmt.Sprintf("append under term 3 acknowledged after term 4 fenced the owner: %+v", rc5),
+			map[string]any{"scenario": "authority-fencing", "schedule": s.log})
 	}
 	return nil
 }
